@@ -22,7 +22,7 @@ def run(res, work, tier, seed):
     def free():
         vlib.run_vh(["c13", "-out", out, "-seed", seed, "-tier", tier], timeout=3000)
         meta = vlib.read_meta(out)
-        fails, r = vlib.tlc_trace(out, "MCM3ObsTrace.tla", "M3ObsTrace.cfg", os.path.join(out, "trace.ndjson"), meta["events"], timeout=3000)
+        fails, r = vlib.tlc_trace(out, "MCM3ObsTrace.tla", "M3ObsTrace.cfg", os.path.join(out, "trace.ndjson"), meta["events"], timeout=3000, boundary='"e":"scn"')
         return meta, fails, r
 
     with ThreadPoolExecutor(max_workers=1) as ex:
